@@ -79,6 +79,10 @@ try:
                 else:
                     fired = [l.split()[1] for l in lines if l.startswith("FIRED")]
                     status = "fired" if fired else "silent"
+                    verdicts = [l for l in lines if l.startswith("FIRED ") or l.startswith("SILENT ")]
+                    if len(verdicts) < 20:
+                        # a run that did not give a verdict for every property is not a result
+                        status, fired = "crash", [c.stdout[-300:]]
                 detail = [l.strip()[:260] for l in lines if l.startswith("  ")][:3]
                 if status == "silent" and a.mode == "break" and a.tests:
                     t = sh(f"cd {repo} && go test -vet=off -count=1 -timeout 10m ./neat/... ./experiment/...", env=env)
